@@ -14,6 +14,7 @@ import (
 	"github.com/oasisprotocol/oasis-core/go/storage/mkvs/node"
 
 	"verif/harness/internal/ev"
+	"verif/harness/internal/maporder"
 )
 
 func main() {
@@ -49,8 +50,9 @@ func main() {
 }
 
 type c06Artefact struct {
-	Backend string `json:"backend"`
-	History []L    `json:"history"`
+	Backend  string `json:"backend"`
+	History  []L    `json:"history"`
+	MapOrder int    `json:"map_order,omitempty"` // start offset of Go map iterations during the run
 }
 
 // runHistory replays a history on a fresh memory-only database; the read-back
@@ -180,7 +182,8 @@ func runC06(r *ev.Run) {
 		b, _ := json.Marshal(v.Artefact)
 		var a c06Artefact
 		_ = json.Unmarshal(b, &a)
-		e, what := runHistory(a.Backend, a.History, true)
+		maporder.Set(a.MapOrder)
+		e, what := runHistoryLoose(a.Backend, a.History)
 		if e != nil {
 			e.ndb.Close()
 		}
@@ -191,6 +194,9 @@ func runC06(r *ev.Run) {
 		fmt.Println("replay: property held")
 		os.Exit(0)
 	}
+	// Go's map iteration order is owned by this binary (badger's and pathbadger's Finalize iterate
+	// maps): fixed per phase, so that the search and every replay are deterministic.
+	maporder.Set(0)
 	maxCands := 2
 	maxVersion := uint64(2)
 	maxStates := 60000
@@ -270,9 +276,11 @@ func runC06(r *ev.Run) {
 	}
 	// Restore histories: after [commit(v1,add2) finalize(v1)] every applicable sequence of up to D letters
 	// over {start a restore into the next or the next-but-one version, import any not yet imported chunk,
-	// abort, finalize the restored root, commit / finalize a normal candidate of the next version};
+	// abort, finalize the restored root, commit / finalize a normal candidate of the next version, prune the
+	// earliest version};
 	// full read-back after every letter.  An aborted restore must leave nothing behind that a later
 	// restore or a later normal version trips over.
+	maporder.Set(3)
 	{
 		D := 7
 		if thoroughTier {
@@ -289,7 +297,8 @@ func runC06(r *ev.Run) {
 				ls = append(ls, L{Op: "mpabort", V: m.mp.version}, L{Op: "mpfinalize", V: m.mp.version})
 			} else {
 				ls = append(ls, L{Op: "mpstart", V: m.last + 1}, L{Op: "mpstart", V: m.last + 2},
-					L{Op: "commit", V: m.last + 1, Batch: "add"}, L{Op: "commit", V: m.last + 1, Batch: "mod"}, L{Op: "finalize", V: m.last + 1})
+					L{Op: "commit", V: m.last + 1, Batch: "add"}, L{Op: "commit", V: m.last + 1, Batch: "mod"}, L{Op: "finalize", V: m.last + 1},
+					L{Op: "prune", V: m.earliest})
 			}
 			var out []L
 			for _, l := range ls {
@@ -316,7 +325,7 @@ func runC06(r *ev.Run) {
 				if strings.HasPrefix(what, "harness:") {
 					r.HarnessError("%s [%s]", what, historyString(h))
 				} else {
-					r.Violate(ev.Violation{Engine: "dbmc", Key: fmt.Sprintf("c06 %s [%s]", be, historyString(h)), What: fmt.Sprintf("%s, history [%s]: %s", be, historyString(h), what), Artefact: c06Artefact{Backend: be, History: h}})
+					r.Violate(ev.Violation{Engine: "dbmc", Key: fmt.Sprintf("c06 %s [%s]", be, historyString(h)), What: fmt.Sprintf("%s, history [%s]: %s", be, historyString(h), what), Artefact: c06Artefact{Backend: be, History: h, MapOrder: 3}})
 				}
 				return
 			}
@@ -427,13 +436,13 @@ func runC06(r *ev.Run) {
 				r.HarnessError("%s [%s]", what, historyString(h))
 				return
 			}
-			r.Violate(ev.Violation{Engine: "dbmc", Key: fmt.Sprintf("c06 %s [%s]", t.be, historyString(h)), What: fmt.Sprintf("%s, history [%s]: %s", t.be, historyString(h), what), Artefact: c06Artefact{Backend: t.be, History: h}})
+			r.Violate(ev.Violation{Engine: "dbmc", Key: fmt.Sprintf("c06 %s [%s]", t.be, historyString(h)), What: fmt.Sprintf("%s, history [%s]: %s", t.be, historyString(h), what), Artefact: c06Artefact{Backend: t.be, History: h, MapOrder: 3}})
 		})
 	}
 	r.Set("max_versions", int(maxVersion))
 	r.Set("max_candidates_per_version", maxCands)
 	r.Alias("traces_validated_against_impl", "transitions")
 	r.Set("rule", "breadth-first search over node-database histories: per version up to max_candidates state commits from the previous finalized root (batches add / del / remove+re-insert / modify / no-op / clear over 3 keys), an optional IO-root commit, finalize of any candidate (with or without the IO root), prune of the earliest version with any lag; successor = replay on a fresh database + 1 letter; deduplicated by the complete physical key/version dump of the store; after every letter every retained finalized root must be listed, present and fully readable (iteration, gets, verified proofs) with exactly the reference contents, and a discarded root is absent, unreadable or reads exactly its own contents")
-	r.Assume("this phase explores sequential histories; concurrent readers are explored by the concurrency phase (conc_* keys)", "keys limited to 3, values a/b", "badger: candidates derived from other candidates of the same version are not generated")
+	r.Assume("this phase explores sequential histories; concurrent readers are explored by the concurrency phase (conc_* keys)", "Go map iteration order is fixed per phase (start offset 0 in the breadth-first search, 3 in the three-candidate and restore histories) so that replays are reproducible; on badger the number of physically distinct states still varies by a few dozen between runs (background compaction decides when superseded entries disappear from the dump): deduplication by the physical dump is finer than the logical state, so this only adds work", "keys limited to 3, values a/b", "badger: candidates derived from other candidates of the same version are not generated")
 	r.Finish()
 }
